@@ -35,6 +35,20 @@ model functions (through `absBuf` / `absDeq`, under the representation invariant
 restates the C09 theorems over the generated definitions (`C09_source_translation_*`).  If the translator
 rejects the source or those proofs stop checking, that is a gate problem naming the broken equality; the
 op-sequence suite below then supplies the failing input if there is one.
+
+Per-environment split and shape normalisation (`py2lean_reorg.py` -> `Gen/ReorgGen.lean`, `Proofs/ReorgGenEq.lean`,
+theorems `C09_reorganize_*`, `C09_source_translation_reorg_*`): suite `reorg` drives the real
+`MultiAgentReplayBuffer._reorganize_dicts` / `save_to_memory(..., is_vectorised=True)` with 1-3 fields, 1-3 agents in
+a per-field shuffled key order, each agent's value an array, a Python list, a dict of arrays or a tuple of arrays (the
+first agent of the first field too), 1..5 environments, rows that are scalars / vectors / matrices, and sometimes one
+array longer or shorter than the rest.  Every row carries a provenance code (call, field, agent, member, environment);
+the decoded result and the decoded new deque entries are compared element by element with the model's transpose
+(`ring reorg`, `ring penv` of the Lean driver; a raising call must be `reject`).  Oracle, independent of the model: with
+equally long arrays every entry (field j, environment i, agent a, member k) holds exactly the row coded (j, a, k, i),
+keys and key order are those of the input, and the deque grew by exactly the per-environment transitions in order.
+Suite `shape` does the same for the single-agent path (`Transition` -> `unsqueeze(0)` / `batch_size` -> `ReplayBuffer.add`)
+with scalar, (E,), (E,1) rewards / dones (mixed across adds), vector / Dict / Tuple observations, E = 1..5: one add
+contributes exactly E rows, row e holds environment e in every leaf, tuple members sit under `tuple_obs_k` in order.
 """
 from __future__ import annotations
 
@@ -484,8 +498,19 @@ def pre_gate(chk: Check) -> None:
     `generated = model` (Proofs/RingGenEq.lean) and the theorems over the generated definitions."""
     import common
     import py2lean_ring
+    import py2lean_reorg
+    # both generated files feed Props.C09: bring both up to date before either gate builds it, so that a file left
+    # over from a run against another tree is not blamed on the wrong translator
+    for mod, out in ((py2lean_ring, "Gen/RingGen.lean"), (py2lean_reorg, "Gen/ReorgGen.lean")):
+        try:
+            mod.write_if_changed(mod.translate(common.REPO)[0], common.LEAN_DIR / out)
+        except mod.Unsupported:
+            pass                                  # reported by the gate below
     common.translation_gate(chk, py2lean_ring, "Gen/RingGen.lean", ["Gen.RingGen", "Proofs.RingGenEq", "Props.C09"],
                             "ReplayBuffer circular storage / sample / clear, MultiAgentReplayBuffer bounded deque")
+    common.translation_gate(chk, py2lean_reorg, "Gen/ReorgGen.lean", ["Gen.ReorgGen", "Proofs.ReorgGenEq", "Props.C09"],
+                            "_reorganize_dicts / save_to_memory_vect_envs per-environment split, Transition shape "
+                            "normalisation, reshape loop of ReplayBuffer.add")
 
 
 def one_case(chk: Check, which: str, cap: int, kind: str, ops, case_seed: int, cfg=None):
@@ -518,7 +543,7 @@ def run(chk: Check) -> None:
                        "a malformed batch is malformed in every leaf (the key-by-key TensorDict slice assignment is not "
                        "atomic for partly well-formed batches; those are outside the property)"]
     # corpus first
-    corpus = sorted((ROOT / "corpus" / "C09").glob("*.json"))
+    corpus = sorted(f for f in (ROOT / "corpus" / "C09").glob("*.json") if not f.name.startswith(("reorg_", "shape_")))
     cases = []
     for f in corpus:
         c = json.loads(f.read_text())
@@ -565,8 +590,11 @@ def run(chk: Check) -> None:
     chk.suite("ring-ops", len(cases), ndiff)
     sample_stress(chk)
     handout_suite(chk)
+    reorg_suite(chk)
+    shape_suite(chk)
     if chk.tier == "thorough":
         selftest(chk)
+        selftest_reorg(chk)
 
 
 def problem_kind(msg: str) -> str:
@@ -734,6 +762,450 @@ def handout_suite(chk: Check) -> None:
     chk.suite("handout", n_cfg, bad)
 
 
+# ----------------------------------------------------------------------------- per-environment split (reorg)
+REORG_ROW_SHAPES = [(), (2,), (1, 3)]
+
+
+def reorg_code(call: int, j: int, a: int, k: int, i: int) -> int:
+    return 1 + i + 8 * (k + 8 * (a + 8 * (j + 8 * call)))
+
+
+def reorg_decode(code: int):
+    c = code - 1
+    i, c = c % 8, c // 8
+    k, c = c % 8, c // 8
+    a, c = c % 8, c // 8
+    j, call = c % 8, c // 8
+    return call, j, a, k, i
+
+
+def gen_reorg_case(rng: random.Random) -> dict:
+    """spec of one sequence of vectorised calls: per call, per field, the agents in key order with the container kind
+    of each and the number of rows of every array (normally num_envs; sometimes one array is longer / shorter)"""
+    nfields, nagents = rng.randint(1, 3), rng.randint(1, 3)
+    cap = rng.choice([1, 2, 3, 5, 8, 13])
+    calls = []
+    for _ in range(rng.randint(1, 3)):
+        n = rng.randint(1, 5)
+        fields = []
+        for j in range(nfields):
+            order = list(range(nagents))
+            rng.shuffle(order)
+            ags = []
+            for a in order:
+                kind = rng.choice(["A", "A", "L", "D", "T"])
+                m = 1 if kind in "AL" else rng.randint(1, 3)
+                ags.append({"agent": a, "kind": kind, "lens": [n] * m, "row": rng.randrange(len(REORG_ROW_SHAPES)),
+                            "subkeys": rng.sample(range(4), m) if kind == "D" else list(range(m))})
+            fields.append(ags)
+        if rng.random() < 0.25:                      # one array disagrees in length
+            f = rng.choice(fields)
+            ag = rng.choice(f)
+            ag["lens"][rng.randrange(len(ag["lens"]))] = max(0, n + rng.choice([-2, -1, 1, 2]))
+        calls.append({"n": n, "fields": fields})
+    return {"cap": cap, "calls": calls}
+
+
+def reorg_build(call_no: int, call: dict):
+    """(real arguments, wire tokens, equal-lengths?) of one vectorised call"""
+    args, toks, equal = [], [str(len(call["fields"]))], True
+    n_first = None
+    for j, ags in enumerate(call["fields"]):
+        d = {}
+        toks.append(str(len(ags)))
+        for ag in ags:
+            a, kind, shape = ag["agent"], ag["kind"], REORG_ROW_SHAPES[ag["row"]]
+
+            def arr(k, ln, as_list=False):
+                codes = [reorg_code(call_no, j, a, k, i) for i in range(ln)]
+                if as_list:                                              # Python list of rows (the maybe_to_array path)
+                    return [float(c) if shape == () else np.full(shape, c, dtype=np.float64).tolist() for c in codes], codes
+                return np.stack([np.full(shape, c, dtype=np.float64) for c in codes]) if codes else np.zeros((0,) + shape), codes
+            toks.append(str(a))
+            if kind in "AL":
+                v, codes = arr(0, ag["lens"][0], kind == "L")
+                toks += ["A", str(len(codes))] + list(map(str, codes))
+                lens = [len(codes)]
+            elif kind == "D":
+                v, lens = {}, []
+                toks += ["D", str(len(ag["lens"]))]
+                for k, (sk, ln) in enumerate(zip(ag["subkeys"], ag["lens"])):
+                    x, codes = arr(k, ln)
+                    v[f"k{sk}"] = x
+                    toks += [str(sk), str(len(codes))] + list(map(str, codes))
+                    lens.append(len(codes))
+            else:
+                vs, lens = [], []
+                toks += ["T", str(len(ag["lens"]))]
+                for k, ln in enumerate(ag["lens"]):
+                    x, codes = arr(k, ln)
+                    vs.append(x)
+                    toks += [str(len(codes))] + list(map(str, codes))
+                    lens.append(len(codes))
+                v = tuple(vs)
+            if n_first is None:
+                n_first = lens[0]
+            equal = equal and all(ln == n_first for ln in lens)
+            d[f"agent_{a}"] = v
+        args.append(d)
+    call["n_first"] = n_first
+    return args, toks, equal
+
+
+def _reorg_leaf(x):
+    v = np.asarray(x, dtype=np.float64).reshape(-1)
+    if v.size == 0 or not np.all(v == v[0]) or v[0] != int(v[0]):
+        return "MIXED"
+    return int(v[0])
+
+
+def reorg_decode_envfield(d) -> list:
+    """one per-environment dict -> [(agent index, ("A", code) | ("D", [(subkey, code)…]) | ("T", [code…]))…] in key order"""
+    out = []
+    for key, val in d.items():
+        a = int(str(key).split("_")[1])
+        if isinstance(val, dict):
+            out.append((a, ("D", [(int(str(k)[1:]), _reorg_leaf(x)) for k, x in val.items()])))
+        elif isinstance(val, tuple):
+            out.append((a, ("T", [_reorg_leaf(x) for x in val])))
+        else:
+            out.append((a, ("A", _reorg_leaf(val))))
+    return out
+
+
+def reorg_parse_matrix(line: str):
+    """inverse of `Ring.showMatrix`: rows of lists of per-environment dicts in the format of reorg_decode_envfield"""
+    t = line.split()
+    pos = 0
+
+    def nat():
+        nonlocal pos
+        pos += 1
+        return int(t[pos - 1])
+
+    def ent():
+        nonlocal pos
+        tag = t[pos]
+        pos += 1
+        if tag == "A":
+            return ("A", nat())
+        m = nat()
+        if tag == "D":
+            return ("D", [(nat(), nat()) for _ in range(m)])
+        return ("T", [nat() for _ in range(m)])
+
+    def envfield():
+        return [(nat(), ent()) for _ in range(nat())]
+    rows = [[envfield() for _ in range(nat())] for _ in range(nat())]
+    if pos != len(t):
+        raise ValueError("trailing tokens")
+    return rows
+
+
+def reorg_oracle(call_no: int, call: dict, res_dec, what: str) -> list[str]:
+    """the statement itself on the decoded result of a call whose arrays are equally long: entry (field j, env i)
+    has the input's agents in the input's order and every leaf is the row coded (call, j, a, k, i)"""
+    problems = []
+    n = call.get("n_first", call["n"])          # the number of rows of the first value of the first field
+    if len(res_dec) != len(call["fields"]):
+        return [f"{what}: {len(res_dec)} lists for {len(call['fields'])} fields"]
+    for j, (ags, lst) in enumerate(zip(call["fields"], res_dec)):
+        if len(lst) != n:
+            problems.append(f"{what}: field {j} has {len(lst)} per-environment entries for {n} environments")
+            continue
+        for i, d in enumerate(lst):
+            if [a for a, _ in d] != [ag["agent"] for ag in ags]:
+                problems.append(f"{what}: field {j} env {i}: agents {[a for a, _ in d]}, given {[ag['agent'] for ag in ags]}")
+                continue
+            for (a, (tag, body)), ag in zip(d, ags):
+                want_tag = "A" if ag["kind"] in "AL" else ag["kind"]
+                leaves = [(0, body)] if tag == "A" else ([(k, c) for k, (_, c) in enumerate(body)] if tag == "D" else list(enumerate(body)))
+                if tag != want_tag or len(leaves) != len(ag["lens"]) or (tag == "D" and [sk for sk, _ in body] != ag["subkeys"]):
+                    problems.append(f"{what}: field {j} env {i} agent {a}: container {tag} {body}, given kind {ag['kind']} "
+                                    f"with {len(ag['lens'])} member(s) {ag['subkeys']}")
+                    continue
+                for k, c in leaves:
+                    if c == "MIXED" or reorg_decode(c) != (call_no, j, a, k, i):
+                        src = "a row mixing several sources" if c == "MIXED" else \
+                            "the row of (call, field, agent, member, env) = " + str(reorg_decode(c))
+                        problems.append(f"{what}: entry (field {j}, env {i}, agent {a}, member {k}) holds {src}; "
+                                        f"expected {(call_no, j, a, k, i)}")
+    return problems[:4]
+
+
+def reorg_one(chk: Check, case: dict):
+    """returns (problems of the oracle, model/implementation differences, tags)"""
+    from agilerl.components.multi_agent_replay_buffer import MultiAgentReplayBuffer
+    nfields = len(case["calls"][0]["fields"])
+    nagents = max(ag["agent"] for c in case["calls"] for f in c["fields"] for ag in f) + 1
+    buf = MultiAgentReplayBuffer(memory_size=case["cap"], field_names=[f"f{j}" for j in range(nfields)],
+                                 agent_ids=[f"agent_{a}" for a in range(nagents)])
+    problems, diffs, tags = [], [], []
+    hist: list = []           # per-environment transitions added so far (decoded), oldest first
+    for cno, call in enumerate(case["calls"]):
+        args, toks, equal = reorg_build(cno, call)
+        wire = " ".join(toks)
+        m_reorg, m_penv = chk.driver.run(["reset", "ring reorg " + wire, "ring penv " + wire])[1:]
+        tags.append("reorg-equal-lengths" if equal else "reorg-length-mismatch")
+        # (a) the split itself
+        try:
+            res = buf._reorganize_dicts(*args)
+            res_dec = [[reorg_decode_envfield(d) for d in lst] for lst in res]
+            raised = None
+        except Exception as e:
+            res_dec, raised = None, f"{type(e).__name__}: {str(e)[:80]}"
+        if raised is not None:
+            if m_reorg != "reject":
+                (problems if equal else diffs).append(f"call {cno}: _reorganize_dicts raised {raised}; the model returns a result")
+            tags.append("reorg-raises")
+        elif m_reorg == "reject":
+            diffs.append(f"call {cno}: _reorganize_dicts returned a result where the model raises")
+        else:
+            if res_dec != reorg_parse_matrix(m_reorg):
+                diffs.append(f"call {cno}: _reorganize_dicts result differs from the model's transpose: impl={res_dec} "
+                             f"model={reorg_parse_matrix(m_reorg)}")
+            if equal:
+                problems += reorg_oracle(cno, call, res_dec, f"call {cno}: _reorganize_dicts")
+            else:
+                tags.append("reorg-silent-truncation" if any(ln > len(res_dec[0]) for f in call["fields"] for ag in f for ln in ag["lens"])
+                            else "reorg-other-mismatch")
+        # (b) save_to_memory(is_vectorised=True): what reaches the deque
+        before_counter = buf.counter
+        try:
+            buf.save_to_memory(*[dict(d) for d in args], is_vectorised=True)
+            saved = True
+        except Exception as e:
+            saved = False
+            if raised is None:
+                problems.append(f"call {cno}: save_to_memory raised {type(e).__name__}: {str(e)[:80]} although the split succeeds")
+        if saved:
+            if m_penv == "reject":
+                diffs.append(f"call {cno}: save_to_memory succeeded where the model raises")
+                continue
+            envs = reorg_parse_matrix(m_penv)                       # envs[i][j]
+            hist += envs
+            if buf.counter != before_counter + len(envs):
+                problems.append(f"call {cno}: counter grew by {buf.counter - before_counter} for {len(envs)} environments")
+            tags.append(f"reorg-envs-{len(envs)}")
+        elif raised is not None and len(buf.memory) != min(case["cap"], len(hist)):
+            problems.append(f"call {cno}: a raising save_to_memory left {len(buf.memory)} entries, {min(case['cap'], len(hist))} expected")
+        stored = [[reorg_decode_envfield(d) for d in e] for e in buf.memory]
+        want = hist[-case["cap"]:]
+        if stored != want:
+            msg = (f"call {cno}: deque holds {len(stored)} transitions {stored[-2:]}, the last {case['cap']} per-environment "
+                   f"transitions are {want[-2:]}")
+            # with equal lengths this is the property itself (each environment's column, in order, last N)
+            (problems if all(reorg_build(c, cl)[2] for c, cl in enumerate(case["calls"][: cno + 1])) else diffs).append(msg)
+        if len(hist) > case["cap"]:
+            tags.append("reorg-evict")
+    return problems, diffs, tags
+
+
+def reorg_suite(chk: Check) -> None:
+    rng = chk.rng
+    n_cases = 60 if chk.tier == "quick" else 500
+    cases = [(json.loads(f.read_text()), f.name) for f in sorted((ROOT / "corpus" / "C09").glob("reorg_*.json"))]
+    cases += [(gen_reorg_case(rng), None) for _ in range(n_cases)]
+    bad = 0
+    for case, origin in cases:
+        case = case.get("case", case)
+        try:
+            problems, diffs, tags = reorg_one(chk, case)
+        except (ValueError, IndexError) as e:
+            from common import InfraError
+            raise InfraError(f"reorg suite: cannot parse the driver's answer: {e}")
+        kinds = sorted({ag["kind"] for c in case["calls"] for f in c["fields"] for ag in f})
+        chk.case(["reorg", case], nontrivial=any(c["n"] > 1 for c in case["calls"]),
+                 sample={"suite": "reorg", "cap": case["cap"], "calls": len(case["calls"]), "kinds": kinds},
+                 tags=tags + ["reorg"] + [f"reorg-kind-{k}" for k in kinds]
+                 + [f"reorg-first-{case['calls'][0]['fields'][0][0]['kind']}"])
+        if not problems and not diffs:
+            continue
+        bad += 1
+        if problems:
+            small = reorg_shrink(chk, case, lambda c: bool(reorg_one(chk, c)[0]))
+            p2 = reorg_one(chk, small)[0]
+            chk.violation(p2[0] if p2 else problems[0],
+                          {"suite": "reorg", "case": small, "oracle_problems": p2 or problems,
+                           "correspondence": "harness/c09.py reorg vs Model/Ring.lean reorganizeDicts / perEnv"})
+        else:
+            small = reorg_shrink(chk, case, lambda c: bool(reorg_one(chk, c)[1]))
+            d2 = reorg_one(chk, small)[1]
+            chk.violation((d2 or diffs)[0] + "; property oracle holds on this case and its shrinks",
+                          {"suite": "reorg", "case": small, "differences": d2 or diffs}, no_input=True)
+    chk.suite("reorg", len(cases), bad)
+
+
+def reorg_shrink(chk: Check, case: dict, fails) -> dict:
+    """fewer calls, then fewer fields (the same fields in every call)"""
+    import copy
+    best = copy.deepcopy(case)
+    for keep in range(len(best["calls"])):
+        c = copy.deepcopy(best)
+        c["calls"] = [best["calls"][keep]]
+        try:
+            if fails(c):
+                best = c
+                break
+        except Exception:
+            pass
+    nf = len(best["calls"][0]["fields"])
+    for j in reversed(range(nf)):
+        if len(best["calls"][0]["fields"]) <= 1:
+            break
+        c = copy.deepcopy(best)
+        for cl in c["calls"]:
+            del cl["fields"][j]
+        try:
+            if fails(c):
+                best = c
+        except Exception:
+            pass
+    return best
+
+
+# ----------------------------------------------------------------------------- single-agent shape normalisation
+def shape_obs(kind: str, ids: list[int], nxt: bool, batched: bool):
+    off = 0.5 if nxt else 0.0
+    a = np.array(ids, dtype=np.float32) + off
+    if kind == "vector":
+        x = np.repeat(a[:, None], 3, axis=1)
+    elif kind == "dict":
+        x = {"zeta": np.repeat(a[:, None], 2, axis=1), "alpha": np.repeat(a[:, None], 3, axis=1)}
+    else:   # tuple: member k has k+1 columns and adds 1000*k to the id, so a member under the wrong key is visible
+        x = tuple(np.repeat(a[:, None] + 1000.0 * k, k + 1, axis=1) for k in range(3))
+    if batched:
+        return x
+    return ({k: v[0] for k, v in x.items()} if isinstance(x, dict) else tuple(v[0] for v in x) if isinstance(x, tuple) else x[0])
+
+
+def shape_one(case: dict) -> list[str]:
+    try:
+        return _shape_one(case)
+    except Exception as e:
+        return [f"implementation raised {type(e).__name__}: {str(e)[:160]}"]
+
+
+def _shape_one(case: dict) -> list[str]:
+    """adds as train_off_policy makes them; every add must contribute exactly its number of environments, in order"""
+    from agilerl.components.data import Transition
+    from agilerl.components.replay_buffer import ReplayBuffer
+    cap, kind = case["cap"], case["kind"]
+    buf = ReplayBuffer(max_size=cap)
+    problems, nid, hist = [], 1, []
+    for form_r, form_d, e, vect in case["adds"]:
+        ids = list(range(nid, nid + e))
+        nid += e
+        idsf = np.array(ids, dtype=np.float32)
+
+        def leaf(form, vals):
+            if form == "scalar":
+                return float(vals[0])
+            if form == "np0":
+                return np.float32(vals[0])
+            return vals.copy() if form == "E" else vals[:, None].copy()
+        t = Transition(obs=shape_obs(kind, ids, False, vect), action=(np.repeat(idsf[:, None], 2, axis=1) if vect else np.repeat(idsf, 2)),
+                       reward=leaf(form_r, idsf), next_obs=shape_obs(kind, ids, True, vect), done=leaf(form_d, idsf % 2))
+        if not vect:
+            t = t.unsqueeze(0)
+        td = t.to_tensordict()
+        td.batch_size = [e]
+        before = (len(buf), buf._cursor)
+        buf.add(td)
+        hist += ids
+        # model (Ring.normLeaf / addLeafShape, theorems C09_source_translation_reorg_scalar_one_row / _vector_rows):
+        # the add contributes exactly e rows, written from the old cursor on, row r = environment r
+        if len(buf) != min(cap, before[0] + e) or buf._cursor != (before[1] + e) % cap:
+            problems.append(f"add of {e} environment(s) (reward {form_r}, done {form_d}): len {before[0]} -> {len(buf)}, cursor "
+                            f"{before[1]} -> {buf._cursor}; exactly {e} row(s) expected")
+            continue
+        st = buf.storage
+        if tuple(st["reward"].shape) != (cap, 1) or tuple(st["done"].shape) != (cap, 1):
+            problems.append(f"stored reward / done have shapes {tuple(st['reward'].shape)} / {tuple(st['done'].shape)}, expected ({cap}, 1)")
+            continue
+        if kind == "tuple" and list(st["obs"].keys()) != [f"tuple_obs_{k}" for k in range(3)]:
+            problems.append(f"tuple observation stored under keys {list(st['obs'].keys())}")
+            continue
+        for r, tid in enumerate(ids):
+            row = st[(before[1] + r) % cap]
+            vals = {("reward",): float(row["reward"].reshape(-1)[0]), ("done",): float(row["done"].reshape(-1)[0]) - tid % 2 + tid}
+            for name, off in (("obs", 0.0), ("next_obs", 0.5)):
+                x = row[name]
+                if kind == "vector":
+                    vals[(name,)] = x
+                elif kind == "dict":
+                    for k in ("zeta", "alpha"):
+                        vals[(name, k)] = x[k]
+                else:
+                    for k in range(3):
+                        vals[(name, k)] = x[f"tuple_obs_{k}"] - 1000.0 * k
+                for key in [q for q in vals if q[0] == name]:
+                    v = torch.unique(vals[key].reshape(-1).to(torch.float64)).tolist()
+                    vals[key] = v[0] - off if len(v) == 1 else float("nan")
+            a = torch.unique(row["action"].reshape(-1).to(torch.float64)).tolist()
+            vals[("action",)] = a[0] if len(a) == 1 else float("nan")
+            wrong = {".".join(map(str, k)): v for k, v in vals.items() if v != tid}
+            if wrong:
+                problems.append(f"row {r} of an add of {e} environment(s) (reward {form_r}, done {form_d}, obs {kind}) should hold "
+                                f"environment {r} (id {tid}) in every leaf; differing leaves: {wrong}")
+                break
+    return problems[:3]
+
+
+def shape_suite(chk: Check) -> None:
+    rng = chk.rng
+    n_cases = 40 if chk.tier == "quick" else 300
+    cases = [json.loads(f.read_text()) for f in sorted((ROOT / "corpus" / "C09").glob("shape_*.json"))]
+    for _ in range(n_cases):
+        cap = rng.choice([5, 6, 8, 11])
+        adds = []
+        for _ in range(rng.randint(2, 5)):
+            vect = rng.random() < 0.7
+            e = rng.randint(1, 5) if vect else 1
+            forms = ["E", "E1"] if vect else ["scalar", "np0", "scalar"]
+            adds.append([rng.choice(forms), rng.choice(forms), e, vect])
+        cases.append({"suite": "shape", "cap": cap, "kind": rng.choice(["vector", "dict", "tuple"]), "adds": adds})
+    bad = 0
+    for case in cases:
+        case = case.get("case", case)
+        problems = shape_one(case)
+        chk.case(["shape", case], nontrivial=any(a[2] > 1 for a in case["adds"]),
+                 sample={"suite": "shape", "cap": case["cap"], "obs": case["kind"], "adds": case["adds"][:4]},
+                 tags=["shape", f"shape-obs-{case['kind']}"] + [f"shape-reward-{a[0]}" for a in case["adds"]]
+                 + [f"shape-envs-{a[2]}" for a in case["adds"]])
+        if problems:
+            bad += 1
+            small = dict(case)
+            small["adds"] = ddmin(case["adds"], lambda sub: bool(sub) and bool(shape_one({**case, "adds": sub})))
+            p2 = shape_one(small) or problems
+            chk.violation(p2[0], {"suite": "shape", "case": small, "oracle_problems": p2})
+    chk.suite("shape", len(cases), bad)
+
+
+def selftest_reorg(chk: Check) -> None:
+    """seeded fault: a split that reads every agent's row 0 must be noticed by the reorg suite's oracle"""
+    from agilerl.components import multi_agent_replay_buffer as mb
+    orig = mb.MultiAgentReplayBuffer._reorganize_dicts
+
+    def broken(self, *args):
+        res = orig(self, *args)
+        for lst in res:
+            for d in lst[1:]:
+                for k in d:
+                    d[k] = lst[0][k]
+        return res
+    mb.MultiAgentReplayBuffer._reorganize_dicts = broken
+    try:
+        case = {"cap": 4, "calls": [{"n": 2, "fields": [[{"agent": 0, "kind": "A", "lens": [2], "row": 1, "subkeys": [0]}]]}]}
+        problems, diffs, _ = reorg_one(chk, case)
+    finally:
+        mb.MultiAgentReplayBuffer._reorganize_dicts = orig
+    if not problems:
+        from common import InfraError
+        raise InfraError("C09 self-test: a per-environment split that repeats environment 0 was not noticed")
+    chk.notes.append("self-test: split repeating environment 0 detected")
+
+
 def renumber(ops):
     """after shrinking, ids must still be 1,2,3,… in order of addition"""
     out, nid = [], 1
@@ -781,6 +1253,22 @@ def replay(chk: Check, path: str) -> int:
         if problem:
             print(f"VIOLATION property=C09 replay={path}")
         return 1 if problem else 0
+    if c.get("suite") == "reorg":
+        problems, diffs, _ = reorg_one(chk, c["case"])
+        print(json.dumps({"oracle_problems": problems, "differences": diffs}, indent=1))
+        if problems:
+            print(f"VIOLATION property=C09 replay={path}")
+            return 1
+        if diffs:
+            print(f"VIOLATION property=C09 replay={path} no-failing-input-found")
+            return 1
+        return 0
+    if c.get("suite") == "shape":
+        problems = shape_one(c["case"])
+        print(json.dumps({"oracle_problems": problems}, indent=1))
+        if problems:
+            print(f"VIOLATION property=C09 replay={path}")
+        return 1 if problems else 0
     if c.get("suite") == "handout":
         problem = handout_one(c["buffer"], c["cap"], c["added"], c["batch"], c["torch_seed"], c["add_width"], c["more_adds"])
         print(json.dumps({"problem": problem}))
